@@ -309,6 +309,37 @@ package scs
 //@   lemma @bridge-bits (forall k int :: 0 <= k && k < len(vBits) ==> isBool(denS(builder, vBits[k]))) ==> fsum(vBits, len(vBits)) == ofInt(hiS(builder, vBits, 0)) && 0 <= hiS(builder, vBits, 0)
 //@   ensures @le ival(denS(builder, v)) <= ival(denS(builder, bound))
 
+// ---- re-use of an earlier addition gate. ASSUMED (lemma @recorded-add): the instruction the map returns for the
+// pair of wires is an addition gate this builder emitted for exactly these two wires (in either order), so it
+// holds under w: qL*w(xa) + qR*w(xb) - w(xc) + qC = 0. VERIFIED: whenever the function re-uses the output wire,
+// with coefficient one or rescaled, the term it returns denotes a + b + k.
+//@ spec func addGate(b *builder, c SparseR1C) F = fadd(fadd(fadd(fmul(coeffG(b.cs, c.QL), w(b, c.XA)), fmul(coeffG(b.cs, c.QR), w(b, c.XB))), fneg(w(b, c.XC))), coeffG(b.cs, c.QC))
+//@ contract (*builder).addConstraintExist
+//@   props C05 C04
+//@   assigns *builder.mAddInstructions
+//@   requires wfB(builder) && builder.cs != nil
+//@   lemma @recorded-add result.1 ==> ((c.XA == a.VID && c.XB == b.VID) || (c.XA == b.VID && c.XB == a.VID)) && addGate(builder, c) == f0
+//   the recorded gate solved for its output, as it is (same coefficients and constant) and rescaled by q4/q2 when
+//   q3*q2 == q1*q4 and there is no constant; each for the two orders in which the gate may hold the wires
+//@   lemma @same-ab addGate(builder, c) == f0 && c.XA == a.VID && c.XB == b.VID && coeffG(builder.cs, c.QL) == a.Coeff && coeffG(builder.cs, c.QR) == b.Coeff && coeffG(builder.cs, c.QC) == k ==> fmul(f1, w(builder, c.XC)) == fadd(fadd(denT(builder, a), denT(builder, b)), k)
+//@   lemma @same-ba addGate(builder, c) == f0 && c.XA == b.VID && c.XB == a.VID && coeffG(builder.cs, c.QL) == b.Coeff && coeffG(builder.cs, c.QR) == a.Coeff && coeffG(builder.cs, c.QC) == k ==> fmul(f1, w(builder, c.XC)) == fadd(fadd(denT(builder, a), denT(builder, b)), k)
+//@   lemma @scaled-ab addGate(builder, c) == f0 && c.XA == a.VID && c.XB == b.VID && coeffG(builder.cs, c.QC) == f0 && k == f0 && coeffG(builder.cs, c.QR) != f0 && fmul(a.Coeff, coeffG(builder.cs, c.QR)) == fmul(coeffG(builder.cs, c.QL), b.Coeff) ==> fmul(fmul(finv(coeffG(builder.cs, c.QR)), b.Coeff), w(builder, c.XC)) == fadd(fadd(denT(builder, a), denT(builder, b)), k)
+//@   lemma @scaled-ba addGate(builder, c) == f0 && c.XA == b.VID && c.XB == a.VID && coeffG(builder.cs, c.QC) == f0 && k == f0 && coeffG(builder.cs, c.QR) != f0 && fmul(b.Coeff, coeffG(builder.cs, c.QR)) == fmul(coeffG(builder.cs, c.QL), a.Coeff) ==> fmul(fmul(finv(coeffG(builder.cs, c.QR)), a.Coeff), w(builder, c.XC)) == fadd(fadd(denT(builder, a), denT(builder, b)), k)
+//@   ensures @reused result.1 ==> denT(builder, result.0) == fadd(fadd(denT(builder, a), denT(builder, b)), k)
+
+// ---- re-use of an earlier multiplication gate qM'*xa*xb - xc = 0 (same assumption on the recorded instruction):
+// the term returned denotes a*b, with coefficient one for the same qM and qM/qM' otherwise.
+//@ spec func mulGate(b *builder, c SparseR1C) F = fadd(fmul(coeffG(b.cs, c.QM), fmul(w(b, c.XA), w(b, c.XB))), fneg(w(b, c.XC)))
+//@ contract (*builder).mulConstraintExist
+//@   props C05 C04
+//@   assigns *builder.mMulInstructions
+//@   requires wfB(builder) && builder.cs != nil
+//@   lemma @recorded-mul result.1 ==> ((c.XA == a.VID && c.XB == b.VID) || (c.XA == b.VID && c.XB == a.VID)) && mulGate(builder, c) == f0
+//@   lemma @same mulGate(builder, c) == f0 && ((c.XA == a.VID && c.XB == b.VID) || (c.XA == b.VID && c.XB == a.VID)) && coeffG(builder.cs, c.QM) == fmul(a.Coeff, b.Coeff) ==> fmul(f1, w(builder, c.XC)) == fmul(denT(builder, a), denT(builder, b))
+//@   lemma @same-swapped mulGate(builder, c) == f0 && ((c.XA == a.VID && c.XB == b.VID) || (c.XA == b.VID && c.XB == a.VID)) && coeffG(builder.cs, c.QM) == fmul(b.Coeff, a.Coeff) ==> fmul(f1, w(builder, c.XC)) == fmul(denT(builder, a), denT(builder, b))
+//@   lemma @scaled mulGate(builder, c) == f0 && ((c.XA == a.VID && c.XB == b.VID) || (c.XA == b.VID && c.XB == a.VID)) && coeffG(builder.cs, c.QM) != f0 ==> fmul(fmul(finv(coeffG(builder.cs, c.QM)), fmul(a.Coeff, b.Coeff)), w(builder, c.XC)) == fmul(denT(builder, a), denT(builder, b)) && fmul(fmul(finv(coeffG(builder.cs, c.QM)), fmul(b.Coeff, a.Coeff)), w(builder, c.XC)) == fmul(denT(builder, a), denT(builder, b))
+//@   ensures @reused result.1 ==> denT(builder, result.0) == fmul(denT(builder, a), denT(builder, b))
+
 // debug information only (symbolic stack, printable terms): emits no constraint, writes only what it allocates
 //@ contract (*builder).newDebugInfo
 //@   trusted "debug information only"
